@@ -177,7 +177,7 @@ CHECKS = {
         "tables' is decided by the executable Lean model of a whole simulation (Model/Sim.lean) that reads ONLY the tables the history left "
         "behind (nodes, edges, recordings, externals, branch structure): its recordings must equal those of jx.integrate.",
    note=TRUST + "set_ncomp and init_states are not in the modelled alphabet (set_ncomp is C13, init_states C14). make_trainable groups are taken from "
-        "the implementation (their construction is C10). Fixed: F10/N11 (delete_channel), N10 (delete_clamps on edges), N13/N13b (delete_channel left recordings / clamps of the deleted channel's states behind; the model and the theorem delete_channel_recordings follow the fixed code)."),
+        "the implementation (their construction is C10). Fixed: F10/N11 (delete_channel), N10 (delete_clamps on edges), N13/N13b (delete_channel left recordings / clamps of the deleted channel's states behind; the model follows the fixed code and the stronger invariant NoDangling - every recording and input refers to an existing state - is proved for every reachable state: noDangling_reachable)."),
  "C13": dict(cat="proof", ref="DESIGN.md §4 C13",
    technique="Lean 4 theorems on a table-level model of set_ncomp (length, frame, equality with direct construction, group remapping) + implementation compared with directly built modules",
    text="Theorems over any field of characteristic 0: the new rows of the branch have the old total length; rows of other branches are "
